@@ -7,7 +7,7 @@
    sent_log k / recv_log k: the messages sent to / received by receiver key k =
    (src, dst, socket id) seen from the receiver, in history order. *)
 From Coq Require Import List Arith Bool PeanoNat.
-From NQ Require Import Net.Hub Proofs.HubProofs.
+From NQ Require Import Net.Hub Net.Bcast Proofs.HubProofs Proofs.BcastProofs.
 Import ListNotations.
 
 (* ---------------------------------------------------------------- fifo_prefix *)
@@ -201,6 +201,47 @@ Example C18_lock_example :
   match nth_error (s_th s) 0 with Some th => rel_dist (t_pc th) = 4 | None => False end.
 Proof. vm_compute. repeat split; reflexivity. Qed.
 
+(* ---------------------------------------------------------------- broadcast channel *)
+(* One endpoint owning several sockets (Net/Bcast.v: BroadcastChannelBySockets over thread
+   sockets; any number of broadcast endpoints and plain thread-socket parties, any remote
+   lists, every schedule).  Keys (receiver, sender, 0) of the per-pair sockets:
+   (a) per pair exactly once and in order: sent = received ++ pending queue;
+   (b) recv returns (sender, msg) of the right sender: what an endpoint returned with tag b
+       is what was popped from its socket for b, in order (up to the one message just popped);
+   (c) what was appended for peer i is what the endpoint sent on socket i, in order (up to the
+       send in progress);
+   (d) a broadcast that returned ok was handed to the hub for EVERY other party.
+   (a)+(b)+(c)+(d): every message broadcast is delivered at most once to every other party,
+   per-sender order preserved, with the right sender tag, and it is pending or received at
+   every party (delivered exactly once to every party that keeps receiving). *)
+Theorem C18_bc_fifo_exact : bc_fifo_exact_stmt.
+Proof. exact bc_fifo_exact. Qed.
+Theorem C18_bc_recv_tag : bc_recv_tag_stmt.
+Proof. exact bc_recv_tag. Qed.
+Theorem C18_bc_sent_log : bc_sent_log_stmt.
+Proof. exact bc_sent_log. Qed.
+Theorem C18_bc_send_all : bc_send_all_stmt.
+Proof. exact bc_send_all. Qed.
+
+Definition bcfg_ex : list pcfg :=
+  [CB 0 [1; 2] [BConnect; BSend 5; BRecv]; CB 1 [0; 2] [BConnect; BRecv; BSend 7]; CB 2 [0; 1] [BConnect; BRecv; BRecv]].
+
+Example C18_bc_example :
+  (* three broadcasting nodes under a round-robin schedule: 0 broadcasts 5, 1 receives it and
+     broadcasts 7, 2 receives both, 0 receives 7 — each with the right sender tag *)
+  let s := brun (binit bcfg_ex) (flat_map (fun _ => [0; 1; 2]) (seq 0 150)) in
+  keys_distinct bcfg_ex /\
+  map (fun x => match x with PB e => (rev (e_out e), rev (e_log e)) | PRaw _ => ([], []) end) (b_par s) =
+    [([BOk; BOk; BMsg 1 7], [(0, 5); (1, 5)]); ([BOk; BMsg 0 5; BOk], [(0, 7); (1, 7)]);
+     ([BOk; BMsg 0 5; BMsg 1 7], [])] /\
+  sent_log (2, 0, 0) (s_tr (b_hub s)) = [5] /\ recv_log (2, 0, 0) (s_tr (b_hub s)) = [5] /\
+  sent_log (0, 1, 0) (s_tr (b_hub s)) = [7] /\ s_q (b_hub s) = [((1, 0, 0), []); ((2, 0, 0), []); ((0, 1, 0), []); ((2, 1, 0), [])].
+Proof.
+  split.
+  - unfold keys_distinct. vm_compute. repeat constructor; simpl; intuition discriminate.
+  - vm_compute. repeat split; reflexivity.
+Qed.
+
 Print Assumptions C18_fifo_exact.
 Print Assumptions C18_fifo_prefix.
 Print Assumptions C18_fifo_exact_cb.
@@ -216,3 +257,7 @@ Print Assumptions C18_recv_nb_step.
 Print Assumptions C18_rendezvous.
 Print Assumptions C18_orig_rendezvous_refuted.
 Print Assumptions C18_no_lock_deadlock.
+Print Assumptions C18_bc_fifo_exact.
+Print Assumptions C18_bc_recv_tag.
+Print Assumptions C18_bc_sent_log.
+Print Assumptions C18_bc_send_all.
